@@ -271,8 +271,39 @@ func TestVerifC33MutatedFlight13(t *testing.T) {
 				}
 			}
 		}
+		// hostile but well-formed certificate lists (also inside a CompressedCertificate, where byte-level mutation of
+		// the compressed blob cannot produce them)
+		certBodyKind := rapid.IntRange(0, 9).Draw(rt, "certbody")
+		if certBodyKind >= 5 {
+			k := certBodyKind
+			s.CertBody = func(body []byte) []byte {
+				switch k {
+				case 5: // empty certificate_list
+					return []byte{0, 0, 0, 0}
+				case 6: // one entry with empty cert_data
+					return []byte{0, 0, 0, 5, 0, 0, 0, 0, 0}
+				case 7: // request context present (illegal for server certificates)
+					return append([]byte{3, 1, 2, 3}, body[1:]...)
+				case 8: // list length one short
+					out := append([]byte(nil), body...)
+					if len(out) >= 4 && out[3] > 0 {
+						out[3]--
+					}
+					return out
+				default: // first entry replaced by garbage DER of the same size
+					out := append([]byte(nil), body...)
+					for i := 7; i < len(out) && i < 60; i++ {
+						out[i] = 0xff
+					}
+					return out
+				}
+			}
+		}
 		s.CertRequest = rapid.IntRange(0, 5).Draw(rt, "certreq") == 0
 		muts := vf33GenMuts(rt, 7)
+		if s.CertBody != nil && rapid.Bool().Draw(rt, "nomuts") {
+			muts = nil // let the flight reach the certificate untouched
+		}
 		landed := map[int]bool{}
 		var mutBytes uint64
 		s.Mutate = func(idx int, typ uint8, raw []byte) []byte {
@@ -315,7 +346,10 @@ func TestVerifC33MutatedFlight13(t *testing.T) {
 			}
 		})
 		out.Harness = mutBytes
-		desc := fmt.Sprintf("%s | flight hrr=%v(cookie %d) alps=%d compress=%d certreq=%v ticket=%v | mutations %v | post-handshake %d msgs", src, s.HRR, len(s.HRRCookie), s.ALPSCodepoint, s.CompressAlg, s.CertRequest, s.SendTicket, muts, len(post))
+		desc := fmt.Sprintf("%s | flight hrr=%v(cookie %d) alps=%d compress=%d certbody=%d certreq=%v ticket=%v | mutations %v | post-handshake %d msgs", src, s.HRR, len(s.HRRCookie), s.ALPSCodepoint, s.CompressAlg, certBodyKind, s.CertRequest, s.SendTicket, muts, len(post))
+		if s.CertBody != nil {
+			st.Class(fmt.Sprintf("certbody=%d compressed=%v", certBodyKind, s.CompressAlg != 0))
+		}
 		vf33Judge(rt, st, desc, out)
 		for _, m := range muts {
 			st.Class("mut=" + m.Kind)
@@ -328,8 +362,8 @@ func TestVerifC33MutatedFlight13(t *testing.T) {
 		if out.Quiesced {
 			st.Class("ended-by-quiescence")
 		}
-		if len(landed) > 0 {
-			st.NonTrivial(fmt.Sprintf("13|%s|%v|%v|%d|%d", src.Name, muts, s.HRR, s.ALPSCodepoint, s.CompressAlg))
+		if len(landed) > 0 || s.CertBody != nil {
+			st.NonTrivial(fmt.Sprintf("13|%s|%v|%v|%d|%d|%d", src.Name, muts, s.HRR, s.ALPSCodepoint, s.CompressAlg, certBodyKind))
 		}
 		st.Sample(map[string]any{"client": src.String(), "mutations": fmt.Sprint(muts), "client_error": fmt.Sprint(out.CliErr), "alloc": out.Alloc})
 	})
